@@ -18,7 +18,7 @@ RULE = ('histories (operation lists) of Model / AttackerAttachment calls with va
         'allow_duplicate_names), remove_asset (live / removed / foreign), add_association (single and '
         'multi-member, self links, reflexive associations holding the same assets on both sides, duplicate pair, repeated member, same object again), remove_association, '
         'remove_asset_from_association (1-member field, multi-member field, non-member), add/remove attacker, '
-        'add/remove entry point - bounded-exhaustive over an 18-operation alphabet on a tiny language, random '
+        'add/remove entry point - bounded-exhaustive over an 19-operation alphabet on a tiny language, random '
         'over a tiny fixed language and generated languages. Oracle: abstract reference model (mtv/ref_model.py) '
         'deciding accept / must-raise and the next state; after every step _to_dict(), get_asset_by_id/name, '
         'asset.associations, neighbours of every (asset, field) and attackers must equal the abstraction. '
@@ -243,7 +243,7 @@ class Run:
                 self.events.add('removal')
         elif kind == 'add_attacker':
             from maltoolbox.model import AttackerAttachment
-            idv = [None, 50, 51][o[1] % 3]
+            idv = [None, 50, 51, 1, 0][o[1] % 5]     # also ids below the ids already handed out
             if idv is not None and any(t['id'] == idv for t in ref.attackers.values() if t['live']):
                 return
             att = AttackerAttachment()
@@ -428,6 +428,7 @@ ALPHABET = [
     ['remove_from_assoc', 1, 0],
     ['remove_assoc', 0],
     ['add_attacker', 0],
+    ['add_attacker', 3],                 # attacker with the explicit id 1
     ['add_ep', 0, 0, 0],
 ]
 
@@ -468,7 +469,7 @@ def _op_strategy():
         st.tuples(st.just('readd_assoc'), small),
         st.tuples(st.just('remove_assoc'), small),
         st.tuples(st.just('remove_from_assoc'), st.integers(0, 11), small),
-        st.tuples(st.just('add_attacker'), st.integers(0, 5)),
+        st.tuples(st.just('add_attacker'), st.integers(0, 9)),
         st.tuples(st.just('remove_attacker'), small),
         st.tuples(st.just('add_ep'), small, small, st.integers(0, 2)),
         st.tuples(st.just('remove_ep'), small, small, st.integers(0, 2)),
@@ -494,7 +495,7 @@ def corelang_histories(draw, max_ops=20):
 
 CLAUSES = [
     Clause('short-histories-exhaustive', check_case, kind='exhaustive', enumerate=_enum,
-           space='all operation sequences of length <=3 (quick) / <=4 (thorough) over an 18-operation alphabet on the tiny language'),
+           space='all operation sequences of length <=3 (quick) / <=4 (thorough) over an 19-operation alphabet on the tiny language'),
     Clause('short-histories-from-populated-model', check_case, kind='exhaustive', enumerate=_enum_populated,
            space='all operation sequences of length <=2 (quick) / <=3 (thorough) over the same alphabet, applied to a model that already holds two hosts and a data asset'),
     Clause('tiny-language-histories', check_case, kind='random', strategy=lambda: tiny_histories(25),
